@@ -3625,13 +3625,17 @@ class Assemble(Array):
         advanced_ndim = builtins.sum(index.ndim for index in self.indices if not isinstance(index, Range))
         compiled_indices = []
         trans = [] # axes of func corresponding to advanced indices
+        slices = [] # axes of func corresponding to slices
+        advanced = [] # positions in self.indices of the advanced indices
         i = 0
-        for index in self.indices:
+        for k, index in enumerate(self.indices):
             j = i + index.ndim
             if isinstance(index, Range):
+                slices.append(i)
                 n = builder.compile(index.shape[0])
                 compiled_index = _pyast.Variable('slice').call(n)
             else:
+                advanced.append(k)
                 prefix = len(trans)
                 trans.extend(range(i, j))
                 suffix = advanced_ndim - len(trans)
@@ -3643,10 +3647,12 @@ class Assemble(Array):
         assert i == self.func.ndim
         assert len(trans) == advanced_ndim
         compiled_func = builder.compile(self.func)
-        if advanced_ndim > 1 and trans[-1] - trans[0] != advanced_ndim - 1: # trans is noncontiguous
+        if advanced_ndim and advanced[-1] - advanced[0] != len(advanced) - 1: # a slice separates two advanced indices
             # see https://numpy.org/doc/stable/user/basics.indexing.html#combining-advanced-and-basic-indexing
-            trans.extend(i for i, index in enumerate(self.indices) if isinstance(index, Range))
-            compiled_func = compiled_func.get_attr('transpose').call(*[_pyast.LiteralInt(i) for i in trans])
+            # NOTE: scalar indices count as advanced indices too, as they are
+            # reshaped to arrays above, even though they do not consume an
+            # axis of func.
+            compiled_func = compiled_func.get_attr('transpose').call(*[_pyast.LiteralInt(i) for i in (*trans, *slices)])
         builder.get_block_for_evaluable(self).array_add_at(out, _pyast.Tuple(tuple(compiled_indices)), compiled_func)
 
     def _optimized_for_numpy(self):
